@@ -115,6 +115,7 @@ json CheckJ(Auditor& auditor, const std::string& text, Syntax syntax) {
     out["ast"] = drv::PutBytes(AST2String::Apply(auditor.parser.AST()));
   }
   const auto nTypeErrors = auditor.Errors().All().size();
+  out["type_errors"] = drv::ErrorsJ(auditor.Errors());
   const bool vok = auditor.CheckValue();
   out["vok"] = vok;
   out["vclass"] = ClassName(auditor.GetValueClass());
